@@ -186,7 +186,7 @@ func execC05(r *kernel.Run, s C05Spec) {
 		r.Fault(kind)
 		var ok bool
 		if p := guard(func() { ok = sg.Verify(k.Pk, block) }); p != "" {
-			r.Probe("verify-panic")
+			r.Violate("C05:panic:Verify", map[string]any{"fault": id}, "%s: CLSignature.Verify panics: %s", id, p)
 			return
 		}
 		if ok {
@@ -290,8 +290,57 @@ func execC05(r *kernel.Run, s C05Spec) {
 	if len(ms) < len(pk.R) {
 		must("other-block:extended", "block", cur, key, append(append([]*big.Int{}, ms...), big.NewInt(7)))
 	}
+	// a block with more messages than the key has bases is a different block too
+	{
+		long := append([]*big.Int{}, ms...)
+		for len(long) <= len(pk.R) {
+			long = append(long, big.NewInt(0))
+		}
+		must("other-block:longer-than-bases", "block", cur, key, long)
+		if wanted(s.OnlyFault, "sign:longer-than-bases") {
+			r.Eval(1)
+			r.Fault("block")
+			var serr error
+			var sg *gabi.CLSignature
+			if p := guard(func() { sg, serr = gabi.SignMessageBlock(key.Sk, pk, long) }); p != "" {
+				r.Violate("C05:panic:SignMessageBlock", map[string]any{"fault": "sign:longer-than-bases"}, "signing a block of %d messages under a key with %d bases panics: %s", len(long), len(pk.R), p)
+			} else if serr == nil && sg != nil {
+				r.Violate("C05:signed-block-longer-than-bases", map[string]any{"fault": "sign:longer-than-bases"}, "a block of %d messages was signed under a key with %d bases", len(long), len(pk.R))
+			}
+		}
+	}
 	if other != key {
 		must("other-key", "key", cur, other, ms)
+	}
+	// signature over a keyshare contribution P = R_0^k (CLSignature.KeyshareP): verifies with P, stays valid
+	// after randomisation, and verifies neither without P nor with another one
+	if wanted(s.OnlyFault, "keyshare-signature") {
+		P := new(big.Int).Exp(pk.R[0], randBits(hr, 200), pk.N)
+		block := append([]*big.Int{big.NewInt(0)}, ms[1:]...)
+		var ism *gabi.IssueSignatureMessage
+		var ierr error
+		if p := guard(func() {
+			ism, ierr = gabi.NewIssuer(key.Sk, pk, big.NewInt(1)).IssueSignature(P, ms[1:], nil, big.NewInt(4242), nil)
+		}); p == "" && ierr == nil {
+			r.Eval(1)
+			sk := &gabi.CLSignature{A: ism.Signature.A, E: ism.Signature.E, V: ism.Signature.V, KeyshareP: P}
+			det := map[string]any{"fault": "keyshare-signature"}
+			if !sk.Verify(pk, block) {
+				r.Violate("C05:valid-signature-rejected", map[string]any{"stage": "keyshare-fresh"}, "signature over a keyshare contribution does not verify with that contribution")
+			} else {
+				r.Probe("keyshare-signature-verifies")
+				rs, err := sk.Randomize(pk)
+				if err != nil {
+					r.Violate("C05:cannot-randomize", det, "%v", err)
+				} else if !rs.Verify(pk, block) {
+					r.Violate("C05:valid-signature-rejected", map[string]any{"stage": "keyshare-randomized"}, "signature over a keyshare contribution no longer verifies after randomisation (keyshare contribution carried over: %v)", rs.KeyshareP != nil)
+				}
+				without := &gabi.CLSignature{A: sk.A, E: sk.E, V: sk.V}
+				must("keyshare:without-contribution", "component", without, key, block)
+				otherP := &gabi.CLSignature{A: sk.A, E: sk.E, V: sk.V, KeyshareP: new(big.Int).Mod(new(big.Int).Mul(P, pk.R[0]), pk.N)}
+				must("keyshare:other-contribution", "component", otherP, key, block)
+			}
+		}
 	}
 	r.Sample(s)
 }
